@@ -616,7 +616,7 @@ pub fn run(ctx: &mut Ctx) {
         "lost-update detection for a non-atomic read-modify-write is probabilistic (stress rounds, not schedule control)".into(),
         "writes are kept inside one region; huge mark_dirty lengths are expected to be clipped to the region".into(),
     ];
-    let cases = ctx.tier.pick(700u32, 30_000u32);
+    let cases = ctx.tier.pick(700u32, 120_000u32);
     let strat = (any::<bool>(), proptest::collection::vec((0u8..6, 1u8..40), 1..=4), proptest::collection::vec(op_strategy(), 1..=30)).prop_map(|(rwlock, layout, mut ops)| {
         // construction instead of rejection: most histories start logging right away
         if ops.len() > 2 {
